@@ -257,6 +257,14 @@ mod verif_bounded {
         for g in 1..=2u8 { m.save_group(group(g, g)).unwrap(); s.save_group(group(g, g)).unwrap(); }
         let sec = |g: u8, e: u64, v: u8| GroupExporterSecret { mls_group_id: gid(g), epoch: e, secret: Secret::new([v; 32]) };
         let relays = |u: &str| BTreeSet::from([RelayUrl::parse(u).unwrap()]);
+        // the record at snapshot time (B) and a later record (C) that differs from it in EVERY field a rollback must restore
+        let pk2 = PublicKey::parse("npub1t5sdrgt7md8a8lf77ka02deta4vj35p3ktfskd5yz68pzmt9334qy6qks0").unwrap();
+        let group_b = || { let mut g = group(1, 1); g.name = "state B".into(); g.description = "desc B".into(); g.epoch = 2; g.admin_pubkeys = BTreeSet::from([pk(), pk2]);
+            g.last_message_id = Some(eid(7)); g.last_message_at = Some(Timestamp::from(70u64)); g.last_message_processed_at = Some(Timestamp::from(71u64));
+            g.image_hash = Some([1u8; 32]); g.image_key = Some(Secret::new([2u8; 32])); g.image_nonce = Some(Secret::new([3u8; 12])); g.self_update_state = SelfUpdateState::CompletedAt(Timestamp::from(5u64)); g };
+        let group_c = || { let mut g = group(1, 1); g.name = "state C".into(); g.description = "desc C".into(); g.epoch = 3; g.admin_pubkeys = BTreeSet::from([pk()]);
+            g.last_message_id = Some(eid(8)); g.last_message_at = Some(Timestamp::from(80u64)); g.last_message_processed_at = Some(Timestamp::from(81u64));
+            g.image_hash = Some([4u8; 32]); g.image_key = Some(Secret::new([5u8; 32])); g.image_nonce = Some(Secret::new([6u8; 12])); g.self_update_state = SelfUpdateState::Required; g.state = GroupState::Inactive; g };
         // state A of g1
         for st in [&m as &dyn StoreOps, &s as &dyn StoreOps] {
             st.put_secret(sec(1, 1, 1)); st.put_relays(1, relays("wss://a.example")); st.put_secret(sec(2, 1, 9)); st.put_relays(2, relays("wss://z.example"));
@@ -264,10 +272,10 @@ mod verif_bounded {
         }
         std::thread::sleep(std::time::Duration::from_millis(1100));
         for st in [&m as &dyn StoreOps, &s as &dyn StoreOps] {
-            let mut g = group(1, 1); g.name = "state B".into(); g.epoch = 2; st.put_group(g);
+            st.put_group(group_b());
             st.put_secret(sec(1, 2, 2)); st.put_relays(1, relays("wss://b.example"));
             st.snap(1, "B");
-            let mut g = group(1, 1); g.name = "state C".into(); g.epoch = 3; st.put_group(g);
+            st.put_group(group_c());
             st.put_secret(sec(1, 3, 3)); st.put_relays(1, relays("wss://c.example"));
             let mut g2 = group(2, 2); g2.name = "g2 moved on".into(); g2.epoch = 5; st.put_group(g2); st.put_secret(sec(2, 5, 8));
         }
@@ -280,7 +288,7 @@ mod verif_bounded {
         expect(label, scen, "snapshots of g1 after the rollback (name, created_at): B consumed, A kept WITH ITS AGE", "SQLite", after_s, before_s.iter().filter(|x| x.0 == "A").cloned().collect::<Vec<_>>());
         expect(label, scen, "snapshots of g1 after the rollback (name, created_at): B consumed, A kept WITH ITS AGE", "memory", after_m, before_m.iter().filter(|x| x.0 == "A").cloned().collect::<Vec<_>>());
         for (name, st) in [("memory", &m as &dyn StoreOps), ("SQLite", &s as &dyn StoreOps)] {
-            expect(label, scen, "g1 record after rollback", name, st.get_group(1).map(|g| (g.name, g.epoch)), Some(("state B".to_string(), 2)));
+            expect(label, scen, "g1 record after rollback: EVERY field is the one of snapshot time (B), none of the later state C", name, st.get_group(1).map(|g| format!("{g:?}")), Some(format!("{:?}", group_b())));
             expect(label, scen, "g1 relays after rollback", name, st.get_relays(1), relays("wss://b.example").into_iter().map(|r| r.to_string()).collect::<BTreeSet<_>>());
             expect(label, scen, "g1 exporter secret of epoch 2 after rollback", name, st.get_secret(1, 2), Some([2u8; 32]));
             expect(label, scen, "g1 exporter secret of epoch 3 (written after B) after rollback", name, st.get_secret(1, 3), None);
